@@ -163,6 +163,7 @@ class World (object):
       hh = h._handle_E0 if s.type == 0 else h._handle_E1
     if hh is None and method in ("handler", "handler_type"):
       method = "pair"     # we no longer hold the handler object
+    also = []
     try:
       if method == "handler":
         if s.weak: r = self.src.removeListener(tok)      # proxy is not ours
@@ -179,18 +180,27 @@ class World (object):
       elif method == "pair_type":
         r = self.src.removeListener(tok, T)
       else:
-        r = self.src.removeListeners([tok])
+        # the bulk form, with up to two more live subscriptions in the same
+        # call (given as (type, id) pair and as bare id)
+        others = [o for o in self.subs if o is not s and o.alive
+                  and o.token is not None][:2]
+        toks = [tok] + [(o.token if i == 0 else o.token[1])
+                        for i, o in enumerate(others)]
+        if others: self.rep.count("bulk_unsubscribes")
+        r = self.src.removeListeners(toks)
+        also = others
     except Exception as e:
       self.fire("unsubscribe method=%s raises %s" % (method, type(e).__name__),
                 "removeListener via %s raised %r" % (method, e))
       return
-    if s.alive:
-      s.alive = False
-      s.removed_at = self.tick()
-      if by is s:
-        s.consumed = True
-      else:
-        s.removed_by_other_at = s.removed_at
+    for x in [s] + also:
+      if x.alive:
+        x.alive = False
+        x.removed_at = self.tick()
+        if by is x:
+          x.consumed = True
+        else:
+          x.removed_by_other_at = x.removed_at
     if by is not None:
       self.rep.count("reentrant_unsub")
       self.flags.add("mut")
